@@ -858,7 +858,7 @@ func c16ChainHTTP(c *Ctx, rule, list, wrapperName string) {
 		c.Run.Unknown(rule, hk+"/request", p, "the request payload decoded from the body", req.String())
 	}
 	// the answer that is written is the wrapper's result
-	for _, s := range flow.Calls(hh, flow.Named("(*"+jsPkg+"handler).returnPayload")) {
+	for _, s := range flow.Calls(hh, flow.Named(c16Writer(c))) {
 		if len(s.Args) == 4 && flow.For(hh).PathCond(s.Instr.Block(), nil).Satisfiable() {
 			if s.Args[3].Equal(flow.For(hh).Term(hsite.Value())) {
 				c.Run.OK(rule, hk+"/answer-written", ipos(c, s.Instr), "the wrapper's answer is written to the response", "returnPayload(w, 200, ans)", true)
@@ -983,7 +983,7 @@ func c16Mirror(c *Ctx) {
 			continue
 		}
 		e := flow.For(fn)
-		s, ok := oneSite(c, rule, fnKey(fn)+"/call:returnPayload", fn, "(*"+jsPkg+"handler).returnPayload")
+		s, ok := oneSite(c, rule, fnKey(fn)+"/call:returnPayload", fn, c16Writer(c))
 		if !ok {
 			continue
 		}
@@ -1013,7 +1013,7 @@ func c16Mirror(c *Ctx) {
 			checkTerm(c, rule, fmt.Sprintf("%s/helper-call#%d/basePL", fnKey(fn), k), ipos(c, s.Instr), "base payload handed to "+strings.TrimPrefix(s.Callee, "(*"+jsPkg+"handler)."), s.Args[2], req.Field("BasePayload"))
 		}
 		if n == "handler.handleHomeNSReq" {
-			for _, s := range flow.Calls(fn, flow.Named("(*"+jsPkg+"handler).returnPayload")) {
+			for _, s := range flow.Calls(fn, flow.Named(c16Writer(c))) {
 				pl := s.Instr.Common().Args[3]
 				if mi, isMI := pl.(*ssa.MakeInterface); isMI {
 					pl = mi.X
@@ -1119,7 +1119,7 @@ func c16Codes(c *Ctx) {
 			continue
 		}
 		e := flow.For(fn)
-		for _, s := range flow.Calls(fn, flow.Named("(*"+jsPkg+"handler).returnPayload")) {
+		for _, s := range flow.Calls(fn, flow.Named(c16Writer(c))) {
 			pl := s.Instr.Common().Args[3]
 			if mi, isMI := pl.(*ssa.MakeInterface); isMI {
 				pl = mi.X
@@ -1434,4 +1434,43 @@ func checkCtxTerm(c *Ctx, rs *c16Resolver, ti int, rule, key, pos, what string, 
 		rw = append(rw, x)
 	}
 	return checkTerm(c, rule, key, pos, what, rg, rw...)
+}
+
+// c16Writer: the handler method that writes an answer payload — (w http.ResponseWriter, status int, payload
+// interface{}) — by signature; its name (returnPayload on the pinned tree) is not part of any API.
+func c16Writer(c *Ctx) string {
+	const deflt = "(*" + jsPkg + "handler).returnPayload"
+	sp := c.Prog.SSAPkg(jsRel)
+	if sp == nil {
+		return deflt
+	}
+	tn, ok := sp.Members["handler"].(*ssa.Type)
+	if !ok {
+		return deflt
+	}
+	ms := c.Prog.SSA.MethodSets.MethodSet(types.NewPointer(tn.Type()))
+	found := ""
+	for i := 0; i < ms.Len(); i++ {
+		fn := c.Prog.SSA.MethodValue(ms.At(i))
+		if fn == nil || fn.Pkg != sp {
+			continue
+		}
+		ps := fn.Signature.Params()
+		if ps.Len() != 3 || fn.Signature.Results().Len() != 0 {
+			continue
+		}
+		_, isIface := ps.At(2).Type().Underlying().(*types.Interface)
+		b, isInt := ps.At(1).Type().Underlying().(*types.Basic)
+		if !isIface || !isInt || b.Info()&types.IsInteger == 0 || !strings.HasSuffix(ps.At(0).Type().String(), "http.ResponseWriter") {
+			continue
+		}
+		if found != "" {
+			return deflt // ambiguous: keep the pinned name
+		}
+		found = flow.FuncName(fn)
+	}
+	if found == "" {
+		return deflt
+	}
+	return found
 }
